@@ -1,9 +1,9 @@
 package rules
 
 import (
-	"go/types"
 	"fmt"
 	"go/token"
+	"go/types"
 	"regexp"
 	"sort"
 	"strings"
@@ -825,4 +825,51 @@ func pkgIsKMD(p *ssa.Package) bool {
 	}
 	path := p.Pkg.Path()
 	return path == KMD || km.IsNewModulePackage(path)
+}
+
+// callsWithNewHelpers: the calls made by fn and by the helpers it calls that are new to the tree (a piece of fn
+// moved out), to the given depth.
+func callsWithNewHelpers(c *km.Ctx, fn *ssa.Function, depth int) []ssa.CallInstruction {
+	var out []ssa.CallInstruction
+	seen := map[*ssa.Function]bool{}
+	var rec func(f *ssa.Function, d int)
+	rec = func(f *ssa.Function, d int) {
+		if seen[f] {
+			return
+		}
+		seen[f] = true
+		for _, ci := range km.CallsIn(f) {
+			out = append(out, ci)
+			if d <= 0 {
+				continue
+			}
+			if g := km.StaticCallee(ci.Common()); g != nil && len(g.Blocks) > 0 && c.InModule(g) && !c.P.IsRecorded(g) {
+				rec(g, d-1)
+			}
+		}
+	}
+	rec(fn, depth)
+	return out
+}
+
+// instrsWithNewHelpers: the instructions of fn and of the helpers it calls that are new to the tree.
+func instrsWithNewHelpers(c *km.Ctx, fn *ssa.Function, depth int, f func(ssa.Instruction)) {
+	seen := map[*ssa.Function]bool{}
+	var rec func(g *ssa.Function, d int)
+	rec = func(g *ssa.Function, d int) {
+		if seen[g] {
+			return
+		}
+		seen[g] = true
+		km.Instrs(g, f)
+		if d <= 0 {
+			return
+		}
+		for _, ci := range km.CallsIn(g) {
+			if h := km.StaticCallee(ci.Common()); h != nil && len(h.Blocks) > 0 && c.InModule(h) && !c.P.IsRecorded(h) {
+				rec(h, d-1)
+			}
+		}
+	}
+	rec(fn, depth)
 }
